@@ -112,6 +112,52 @@ def handle (j : Json) : Except String Json := do
       ("dropOvr", encDoc (dropOvr (store N E))),
       ("before", jarr ((runningConfig N E).map encResolved)),
       ("cycles", Json.arr out)]
+  | "session" =>
+    -- the experiment that created the instance, then a history of steps: {"iterate": [comps]} |
+    -- {"load": Q, "update": bool} | {"store": true}; after every step: the description on disk and, for loads,
+    -- whether the load is accepted and the configuration of the loaded object
+    let N ← getNat j "N"
+    let P ← getNat j "P"
+    let doc ← decDoc (← j.getObjVal? "doc")
+    let E : Exp := { doc := doc, plat := P, patches := [] }
+    let stepsJ ← getArr j "steps"
+    let mut S : Session := Session.create N E
+    let mut ok := true
+    let mut allResolve := resolves N doc P
+    let mut out : Array Json := #[]
+    for sj in stepsJ do
+      if !ok then break
+      match sj.getObjVal? "iterate" with
+      | .ok cj =>
+        let cs ← (← cj.getArr?).toList.mapM decComp
+        S := step N S (.iterate cs)
+        allResolve := allResolve && resolves N S.exp.doc S.exp.plat
+        out := out.push (jobj [("kind", Json.str "iterate"), ("stored", encDoc S.disk),
+          ("ids", jarr ((compIds S.exp.doc).map fun (s, n, d) => jarr [jnat s, jnat n, jbool d]))])
+      | .error _ =>
+        match sj.getObjVal? "load" with
+        | .ok qj =>
+          let Q ← qj.getNat?
+          let upd ← getBool sj "update"
+          if !loadable S.plats Q then
+            ok := false
+            out := out.push (jobj [("kind", Json.str "load"), ("loadable", jbool false)])
+          else
+            S := step N S (.load Q upd)
+            out := out.push (jobj [("kind", Json.str "load"), ("loadable", jbool true), ("stored", encDoc S.disk),
+              ("writable", jbool S.writable),
+              ("after", jarr ((runningConfig N S.exp).map encResolved))])
+        | .error _ =>
+          S := step N S .store
+          out := out.push (jobj [("kind", Json.str "store"), ("stored", encDoc S.disk)])
+    return jobj [
+      ("resolves", jbool (resolves N doc P)),
+      ("resolvesFully", jbool (resolvesFully N doc P)),
+      ("allResolve", jbool allResolve),
+      ("stored", encDoc (store N E)),
+      ("dropOvr", encDoc (dropOvr (store N E))),
+      ("before", jarr ((runningConfig N E).map encResolved)),
+      ("steps", Json.arr out)]
   | "dir" =>
     -- instance directory: manifest deployment, implied folders, reading of references
     let decKind (s : String) : Except String St4sd.InstanceDir.Kind :=
